@@ -314,3 +314,32 @@ Definition wrapper_spec (cl : option Z) (r : env) : choice :=
 
 (* a LimitedStream / underlying stream pair as it can arise: _pos counts what was taken *)
 Definition wf (s : ls) (u : und) : Prop := pos s = lenN (u_taken u) /\ pos s <= limit s.
+
+(* ------------------------------------------------------------------ primitives of the statement-by-statement translation
+   of LimitedStream.readinto (C09/GenRI.v, generated).  The translated function threads _pos, the
+   underlying stream and the caller's buffer b; Proofs.readinto_gen_core ties it to readinto_core. *)
+Inductive rr := RRet (ret pos : Z) (u : und) (b : bytes) | RRaise (e : exn) (pos : Z) (u : und) (b : bytes).
+Definition len_of (x : bytes) : Z := Z.of_N (lenN x).
+Definition bytearray (n : Z) : bytes := zerosN (Z.to_N n).
+Definition take (x : bytes) (n : Z) : bytes := takeN (Z.to_N n) x.        (* x[:n] *)
+Definition truthy (n : Z) : bool := negb (n =? 0)%Z.
+(* self.on_exhausted() / self.on_disconnect(...) : raise or fall through *)
+Definition do_on_exhausted (is_max : bool) (pos : Z) (u : und) (b : bytes) (k : unit -> rr) : rr :=
+  match on_exhausted_gen is_max with Some e => RRaise e pos u b | None => k tt end.
+Definition do_on_disconnect (is_max error_given : bool) (pos : Z) (u : und) (b : bytes) (k : unit -> rr) : rr :=
+  match on_disconnect_gen is_max error_given with Some e => RRaise e pos u b | None => k tt end.
+(* try: out_size = self._stream.readinto(buf)  except (OSError, ValueError): h *)
+Definition try_readinto (u : und) (buf : bytes) (k : Z -> und -> bytes -> rr) (h : und -> rr) : rr :=
+  match und_read u (lenN buf) with
+  | (UGot d, u') => k (len_of d) u' (d ++ dropN (lenN d) buf)
+  | (UErr, u') => h u'
+  end.
+(* try: data = self._stream.read(n)  except (OSError, ValueError): h *)
+Definition try_read (u : und) (n : Z) (k : bytes -> und -> rr) (h : und -> rr) : rr :=
+  match und_read u (Z.to_N n) with
+  | (UGot d, u') => k d u'
+  | (UErr, u') => h u'
+  end.
+(* b[:n] = src *)
+Definition slice_assign (kind : bufkind) (b : bytes) (n : Z) (src : bytes) (pos : Z) (u : und) (k : bytes -> rr) : rr :=
+  if slice_assign_ok kind (Z.to_N n) src then k (src ++ dropN (Z.to_N n) b) else RRaise ValueErrorE pos u b.
